@@ -2283,10 +2283,11 @@ namespace xsimd
             batch_type resg = select(y < real_batch(0.), batch_type(t, -r), batch_type(t, r));
             real_batch ze(0.);
 
+            // on the real axis the sign of the zero imaginary part selects the side of the branch cut
             return select(y == ze,
                           select(x == ze,
-                                 batch_type(ze, ze),
-                                 select(x < ze, batch_type(ze, sqrt_x), batch_type(sqrt_x, ze))),
+                                 batch_type(ze, y),
+                                 select(x < ze, batch_type(ze, copysign(sqrt_x, y)), batch_type(sqrt_x, y))),
                           select(x == ze,
                                  select(y > ze, batch_type(sqrt_hy, sqrt_hy), batch_type(sqrt_hy, -sqrt_hy)),
                                  resg));
